@@ -179,6 +179,45 @@ Section sizes.
   Proof. apply map_size_insert_None. Qed.
 End sizes.
 
+(* keep the machine's functions folded under cbn; they are unfolded explicitly *)
+Global Arguments send : simpl never.
+Global Arguments send_or_remove : simpl never.
+Global Arguments send_ignore : simpl never.
+Global Arguments push_remove : simpl never.
+Global Arguments has : simpl never.
+Global Arguments remove_listener : simpl never.
+Global Arguments remove_end : simpl never.
+Global Arguments remove_service : simpl never.
+Global Arguments remove_object : simpl never.
+Global Arguments shutdown_conn : simpl never.
+Global Arguments bus : simpl never.
+Global Arguments abort_call : simpl never.
+Global Arguments settle_one : simpl never.
+Global Arguments settle : simpl never.
+Global Arguments handle : simpl never.
+Global Arguments gate : simpl never.
+Global Arguments call_impl : simpl never.
+Global Arguments create_service_impl : simpl never.
+Global Arguments obj_by_cookie : simpl never.
+Global Arguments svc_by_cookie : simpl never.
+Global Arguments owner_of_svc : simpl never.
+Global Arguments chan_close : simpl never.
+Global Arguments chan_claim : simpl never.
+Global Arguments chan_add_capacity : simpl never.
+Global Arguments chan_send_item : simpl never.
+Global Arguments chan_close_result : simpl never.
+Global Arguments fuel_for : simpl never.
+Global Arguments foldO : simpl never.
+Global Arguments N.add : simpl never.
+Global Arguments N.sub : simpl never.
+Global Arguments N.mul : simpl never.
+Global Arguments N.ltb : simpl never.
+Global Arguments N.leb : simpl never.
+Global Arguments N.eqb : simpl never.
+Global Arguments N.pred : simpl never.
+Global Arguments N.succ : simpl never.
+Global Arguments N.of_nat : simpl never.
+
 (* ---------------------------------------------------------------- shutdown_conn in phases *)
 (* the loop bodies of Broker::shutdown_connection, named; [shutdown_conn_eq] is by computation *)
 Definition sc_ev_inner (c : conn) (k : uuid * uuid) (owner : conn) (m : M) (e : N) : M :=
@@ -512,8 +551,13 @@ Lemma step_eq s e fresh bserial :
   | Panic site => Panic site
   end.
 Proof.
-  destruct e; try reflexivity.
+  destruct e.
   - unfold step, step_pre. destruct (conns s !! c); reflexivity.
+  - reflexivity.
+  - unfold step, step_pre. fold (m_init s). destruct (handle _ _ _ _ _); reflexivity.
+  - reflexivity.
+  - reflexivity.
+  - reflexivity.
   - unfold step, step_pre, drop_task. destruct (conns s !! c); reflexivity.
 Qed.
 
@@ -568,41 +612,3 @@ Proof.
   specialize (Hsettle (fuel_for (ms m)) m Hm). rewrite Hs in Hsettle. exact Hsettle.
 Qed.
 
-(* keep the machine's functions folded under cbn; they are unfolded explicitly *)
-Global Arguments send : simpl never.
-Global Arguments send_or_remove : simpl never.
-Global Arguments send_ignore : simpl never.
-Global Arguments push_remove : simpl never.
-Global Arguments has : simpl never.
-Global Arguments remove_listener : simpl never.
-Global Arguments remove_end : simpl never.
-Global Arguments remove_service : simpl never.
-Global Arguments remove_object : simpl never.
-Global Arguments shutdown_conn : simpl never.
-Global Arguments bus : simpl never.
-Global Arguments abort_call : simpl never.
-Global Arguments settle_one : simpl never.
-Global Arguments settle : simpl never.
-Global Arguments handle : simpl never.
-Global Arguments gate : simpl never.
-Global Arguments call_impl : simpl never.
-Global Arguments create_service_impl : simpl never.
-Global Arguments obj_by_cookie : simpl never.
-Global Arguments svc_by_cookie : simpl never.
-Global Arguments owner_of_svc : simpl never.
-Global Arguments chan_close : simpl never.
-Global Arguments chan_claim : simpl never.
-Global Arguments chan_add_capacity : simpl never.
-Global Arguments chan_send_item : simpl never.
-Global Arguments chan_close_result : simpl never.
-Global Arguments fuel_for : simpl never.
-Global Arguments foldO : simpl never.
-Global Arguments N.add : simpl never.
-Global Arguments N.sub : simpl never.
-Global Arguments N.mul : simpl never.
-Global Arguments N.ltb : simpl never.
-Global Arguments N.leb : simpl never.
-Global Arguments N.eqb : simpl never.
-Global Arguments N.pred : simpl never.
-Global Arguments N.succ : simpl never.
-Global Arguments N.of_nat : simpl never.
